@@ -107,6 +107,7 @@ type item struct {
 }
 
 type run struct {
+	curCall *ssa.CallCommon
 	eng      *Engine
 	root     *ssa.Function
 	rootName string
